@@ -56,7 +56,9 @@ def main():
     rc = 2
     try:
         mod = importlib.import_module("harness.props." + pid.lower())
-        with open(os.path.join(common.LEAN_DIR, ".verif-build.lock"), "w") as lk:
+        # one lock per property: two runs of the same check never build concurrently; different
+        # properties build disjoint targets (shared dependencies are built by setup.sh)
+        with open(os.path.join(common.LEAN_DIR, ".verif-build-%s.lock" % pid), "w") as lk:
             fcntl.flock(lk, fcntl.LOCK_EX)
             has_translator = hasattr(mod, "translate")
             if has_translator:
